@@ -414,9 +414,11 @@ func checkMeta(m metaCmp, s *gen.Spec, v verParts, p *dec.Package, wantArch stri
 		}
 		prio := s.Priority
 		if prio == "" {
-			prio = "optional"
+			prio = "optional" // documented default for deb
 		}
-		m.eq("priority", g("Priority"), prio)
+		if s.Priority != "" || f == "deb" {
+			m.eq("priority", g("Priority"), prio)
+		}
 		// description: synopsis + continuation lines via the deb822 rules
 		got := strings.Split(g("Description"), "\n")
 		for i := range got {
